@@ -280,6 +280,7 @@ class FakeB2(FakeService):
         self.expire_all_on = None   # callable(op)->bool: invalidate every account token before serving (401 expired)
         self.protocol_errors = []
         self.pages = 0
+        self.authorize_delay = 0.0  # seconds b2_authorize_account takes (other requests go on meanwhile)
 
     # -- the object-store view --------------------------------------------------------------------------------
     def live(self):
@@ -317,6 +318,9 @@ class FakeB2(FakeService):
             want = 'Basic ' + base64.b64encode(f'{self.key_id}:{self.app_key}'.encode()).decode()
             if request.headers.get('authorization') != want:
                 return self._err(request, 401, 'bad_auth_token')
+            if self.authorize_delay:
+                import asyncio
+                await asyncio.sleep(self.authorize_delay)
             tok = self._new_token()
             self.tokens.add(tok)
             allowed = {'bucketId': self.bucket_id, 'bucketName': self.bucket_name} if self.restricted else \
